@@ -221,6 +221,25 @@ def covRun (o : Opts) (fs : FS) (stream : Str) : St × List String :=
   let fin := finish o r.1
   (fin, addTags r.2 (["eof:" ++ phaseName r.1.phase, s!"eof-depth:{min r.1.stack.length 4}"] ++ newReplyTags r.1 fin))
 
+/-- the tagged step IS `step`: the tags only look at the states -/
+theorem covStep_fst (o : Opts) (acc : St × List String) (b : UInt8) : (covStep o acc b).1 = step o acc.1 b := by
+  unfold covStep
+  dsimp only
+  split <;> (try split) <;> rfl
+
+theorem covFold_fst (o : Opts) (s : Str) (acc : St × List String) :
+    (s.foldl (covStep o) acc).1 = s.foldl (step o) acc.1 := by
+  induction s generalizing acc with
+  | nil => rfl
+  | cons b bs ih => rw [List.foldl_cons, List.foldl_cons, ih, covStep_fst]
+
+/-- what the driver answers for `sink`, `sinkl`, `rt` is the state `run` -- the function Props/C11.lean and
+Props/C12.lean are about -- ends in -/
+theorem covRun_fst (o : Opts) (fs : FS) (stream : Str) : (covRun o fs stream).1 = run o fs stream := by
+  unfold covRun run
+  dsimp only
+  rw [covFold_fst]
+
 /-- pre-order tree tokens; returns siblings up to a closing `)` (consumed) or the end -/
 def parseTrees : Nat → List String → Option (List (Str × Tree) × List String)
   | 0, _ => none
